@@ -68,6 +68,7 @@ fn dispatch(state: &mut modelops::State, req: &J) -> J {
     "eval" => guarded(|| feelops::op_eval(req)),
     "history" => guarded(|| feelops::op_history(req)),
     "num" => guarded(|| feelops::op_num(req)),
+    "numpar" => guarded(|| feelops::op_numpar(req)),
     "temporal" => guarded(|| feelops::op_temporal(req)),
     "types" => guarded(|| feelops::op_types(req)),
     "typematrix" => guarded(|| feelops::op_typematrix(req)),
